@@ -2270,7 +2270,7 @@ namespace xsimd
             return select(y == ze,
                           select(x == ze,
                                  batch_type(ze, ze),
-                                 select(x < ze, batch_type(ze, sqrt_x), batch_type(sqrt_x, ze))),
+                                 select(x < ze, batch_type(ze, copysign(sqrt_x, y)), batch_type(sqrt_x, ze))), // on the cut the sign of the zero imaginary part selects the branch
                           select(x == ze,
                                  select(y > ze, batch_type(sqrt_hy, sqrt_hy), batch_type(sqrt_hy, -sqrt_hy)),
                                  resg));
